@@ -270,6 +270,44 @@ def iter_cmds(rng, h, n, tries=True):
     return cmds
 
 
+def arena_header(rng, src=None):
+    src = src or rng.choice(["grow", "grow", "static", "virtual"])
+    h = {"fam": "arena", "src": src, "cached": rng.choice([0, 1, 1]), "place": rng.choice(["lo", "hi"])}
+    h["bs"] = rng.choice([1024, 2048, 4096]) if src == "static" else 4096 if src == "virtual" else rng.choice([64, 100, 256])
+    return h
+
+
+def arena_cmds(rng, n, fail=False, moves=True, max_ab=12):
+    """growing block sources double the block size with every block they ever hand out: the number of
+    allocate_block calls per execution is bounded so that sizes stay small"""
+    cmds = []
+    nab = 0
+    for _ in range(n):
+        r = rng.random()
+        if r < 0.38 and nab < max_ab:
+            cmds.append("ab")
+            nab += 1
+        elif r < 0.66:
+            cmds.append("db")
+        elif r < 0.74:
+            cmds.append("sh")
+        elif r < 0.86:
+            cmds.append("own %d %d" % (rng.randint(0, 9), rng.randint(0, 3)))
+        elif r < 0.90 and moves:
+            cmds.append("mv %d" % rng.randint(0, 1))
+        elif r < 0.94 and moves:
+            cmds.append("ma %d" % rng.randint(0, 1))
+        elif r < 0.97 and moves:
+            cmds.append("sw %d" % rng.randint(0, 1))
+        elif fail:
+            cmds.append("fail %d" % rng.randint(1, 2))
+        elif nab < max_ab:
+            cmds.append("ab")
+            nab += 1
+    cmds.append("nofail")
+    return cmds
+
+
 def static_header(rng):
     return {"fam": "static", "place": rng.choice(["lo", "hi"])}
 
